@@ -14,7 +14,9 @@ pub fn main(tier: &str, seed: u64, n_override: Option<u64>) {
         let mut from = [0.0; 6]; let mut to = [0.0; 6];
         for i in 0..6 {
             let tp = 2.0 * PI;
-            let (f, t) = match rng.below(9) {
+            let (f, t) = match rng.below(10) {
+                // limits written in whole degrees a full turn apart (93 and -267): after unwrapping the arc is a point or one or two ulp wide
+                9 => { let d = rng.int(0, 360) as f64; (d.to_radians(), (d - 360.0).to_radians()) }
                 0 => { let f = rng.range(-tp, tp); (f, f) }                                            // unconstrained
                 1 => { let f = rng.range(0.5, tp); (f, rng.range(0.0, f - 0.1)) }                      // wrap, both positive
                 2 => { let t = rng.range(-tp, -0.5); (rng.range(t + 0.1, 0.0), t) }                    // wrap, both negative
@@ -39,6 +41,7 @@ pub fn main(tier: &str, seed: u64, n_override: Option<u64>) {
         };
         let mut lo = [f64::INFINITY; 6]; let mut hi = [f64::NEG_INFINITY; 6];
         let mut bad = 0u64; let mut first_bad = [0.0; 6]; let mut panicked = String::new();
+        let mut own_rej = 0u64;
         let mut self_bad = 0u64; let mut draw0: Option<([f64; 6], bool)> = None;
         for _ in 0..draws {
             match guarded(std::panic::AssertUnwindSafe(|| k.random_angles())) {
@@ -50,6 +53,8 @@ pub fn main(tier: &str, seed: u64, n_override: Option<u64>) {
                     if !ok { if bad == 0 { first_bad = a; } bad += 1; }
                     // a draw strictly inside every arc (by the independent arc test) must also be accepted by the constraints themselves
                     if !k.compliant(&a) && (0..6).all(|i| on_arc(from[i], to[i], a[i], 1e-9) == Some(true)) { if self_bad == 0 && bad == 0 { first_bad = a; } self_bad += 1; }
+                    // ... and no margin is involved in the property's own wording: whatever the sampler returns, the same constraints accept
+                    if !k.compliant(&a) { if own_rej == 0 && bad == 0 && self_bad == 0 { first_bad = a; } own_rej += 1; }
                 }
             }
         }
@@ -57,8 +62,9 @@ pub fn main(tier: &str, seed: u64, n_override: Option<u64>) {
         if !panicked.is_empty() { direct = "fail"; class = "C18.sampler_panics"; }
         else if bad > 0 { direct = "fail"; class = "C18.sample_outside_arc"; }
         else if self_bad > 0 { direct = "fail"; class = "C18.sample_rejected_by_compliant"; }
+        else if own_rej > 0 { direct = "fail"; class = "C18.sample_rejected_by_its_own_constraints"; }
         println!("{}", Obj::new().s("prop", "C18").i("case", idx as i64).i("ctor", ctor as i64).fs("from", &from).fs("to", &to).i("draws", draws)
-            .fs("lo", &lo).fs("hi", &hi).i("bad", bad as i64).i("self_bad", self_bad as i64).fs("first_bad", &first_bad).fs("draw", &draw0.map(|d| d.0).unwrap_or([0.0; 6])).b("draw_ok", draw0.map(|d| d.1).unwrap_or(true)).s("panic", &panicked)
+            .fs("lo", &lo).fs("hi", &hi).i("bad", bad as i64).i("self_bad", self_bad as i64).i("own_rej", own_rej as i64).fs("first_bad", &first_bad).fs("draw", &draw0.map(|d| d.0).unwrap_or([0.0; 6])).b("draw_ok", draw0.map(|d| d.1).unwrap_or(true)).s("panic", &panicked)
             .s("direct", direct).s("class", class).done());
     }
 }
